@@ -290,6 +290,16 @@ def run(ctx):
             f = prog.fn(OPS + n)
             for g in [f] + prog.closures_of(f.path):
                 for bb, t in query.asserts(g):
+                    from .. import taint as _taint
+                    kind_ = t["kind"]
+                    if kind_.startswith(("DivisionByZero", "RemainderByZero")) and (
+                            _taint.nonzero_guard(g, bb, _taint.divisor_of(g, t)) or _taint.positive_guard(g, bb, _taint.divisor_of(g, t))):
+                        ctx.count("C08.N3 division asserts discharged by a dominating divisor test")
+                        continue
+                    if kind_ in ("Overflow:Div", "Overflow:Rem") and len(t.get("ops", [])) > 1 and (
+                            _taint.positive_guard(g, bb, t["ops"][1])):
+                        ctx.count("C08.N3 division asserts discharged by a dominating divisor test")
+                        continue
                     ctx.ob("C08.N3.no-unchecked-arithmetic", "%s%s|%s" % (tag, g.path, t["kind"]), False,
                            "primitive arithmetic with an overflow/zero check that panics (debug) or wraps (release)",
                            g.where(bb))
